@@ -9,7 +9,8 @@ the same witness. The model is tied to the repaired code by the differential run
 witnesses are rendered by the real code in the oracle stream of `harness/src/snippet.rs` under the
 unchanged oracle ids, so a regression shows up as a violation. The general (for-all) statements are in
 Props/C17.lean (`window_output_clean`, `fmt_window_safe`, `region_lines_exact`,
-`regions_cover_location`, `eof_line_terminated`, `reader_snippet_line_aligned`).
+`regions_cover_location`, `eof_line_terminated`, `reader_snippet_line_aligned`,
+`window_contains_error_line_yaml`).
 -/
 namespace SaphyrVerif.Props.C17
 open SaphyrVerif SaphyrVerif.Snippet
@@ -92,6 +93,52 @@ theorem eof_line_shown_regression :
      | .ok (some r) =>
        (r.source == "name: 'unterminated\n\n".toList) && r.lineStart == 1 && r.spanStart == 20 && r.spanEnd == 20
      | _ => false) = true := by
+  decide +kernel
+
+/-- (R) `lone_cr_line_break_regression` — finding `C17-lone-cr-line-break`, fixed.
+`name: x⏎count: zz␊flag: true` (⏎ = a lone CR, which is a YAML line break) fails with `line 2 column 8`.
+Line 2 under the YAML rule is `count: zz`. The region stored by `with_snippet` now holds the three
+lines `name: x` / `count: zz` / `flag: true` (the lone CR has become LF), records lines 1..3, and the
+window rendered from it has `count: zz` as its second row with the span on the first `z` (byte 15 of the
+window = column 8 of row 2). Before the fix the text had two rows, row 2 was `flag: true`, and the marker
+stood under a character of the wrong line. -/
+theorem lone_cr_line_break_regression :
+    (match withSnippetRegions "name: x\rcount: zz\nflag: true".toList ⟨2, 8⟩ none 64 with
+     | .ok [reg] =>
+       (reg.text == "name: x\ncount: zz\nflag: true".toList) && reg.startLine == 1 && reg.endLine == 3 &&
+       (match renderPrepare [reg] ⟨2, 8⟩ 64 with
+        | .ok (some p) =>
+          p.displayStartRow == 1 && p.row == 2 && p.localStart == 15 &&
+          (dropBytes p.windowText p.localStart).bind List.head? ==
+            (Spec.Snippet.yamlLine "name: x\rcount: zz\nflag: true".toList 2).bind (Spec.Snippet.charAtCol · 8) &&
+          (dropBytes p.windowText p.localStart).bind List.head? == some 'z'
+        | _ => false)
+     | _ => false) = true := by
+  decide +kernel
+
+/-- (R) the same text ending with lone CRs only (`name: x⏎flag: true⏎count: zz⏎`, error on line 3): four
+lines under the YAML rule, the last one empty; the region covers lines 1..4 -/
+theorem lone_cr_only_regression :
+    (match regionFor "name: x\rflag: true\rcount: zz\r".toList ⟨3, 8⟩ none 64 with
+     | .ok (some reg) =>
+       (reg.text == "name: x\nflag: true\ncount: zz\n".toList) && reg.startLine == 1 && reg.endLine == 4 &&
+       (Spec.Snippet.yamlLines "name: x\rflag: true\rcount: zz\r".toList).length == 4
+     | _ => false) = true := by
+  decide +kernel
+
+/-- (R) reader entry point: stream `ab⏎cd⏎␊ef␊` (⏎ = CR, ␊ = LF) read to the end through rings of 7, 6,
+5, 4 and 3 bytes. Ring of 7: `ab⏎` evicted — the lone CR ended line 1, the snapshot `cd⏎␊ef␊` begins
+line 2. Rings of 6 and 5: the snapshot starts inside line 2, the rest of that line up to and including the
+CRLF pair is left out and the attached text `ef␊` starts at line 3. Ring of 4 (`ab⏎cd⏎` evicted): the CRLF
+pair is split, its CR is not counted as a line, the snapshot `␊ef␊` still belongs to line 2 and the
+attached text is again `ef␊` from line 3. Ring of 3: the pair's LF has been evicted too, the snapshot
+`ef␊` begins line 3. -/
+theorem lone_cr_ring_regression :
+    ringRunAligned 7 0 (encode "ab\rcd\r\nef\n".toList) 100 = .ok (true, "cd\r\nef\n".toList, 2) ∧
+    ringRunAligned 6 0 (encode "ab\rcd\r\nef\n".toList) 100 = .ok (false, "ef\n".toList, 3) ∧
+    ringRunAligned 5 0 (encode "ab\rcd\r\nef\n".toList) 100 = .ok (false, "ef\n".toList, 3) ∧
+    ringRunAligned 4 0 (encode "ab\rcd\r\nef\n".toList) 100 = .ok (false, "ef\n".toList, 3) ∧
+    ringRunAligned 3 0 (encode "ab\rcd\r\nef\n".toList) 100 = .ok (true, "ef\n".toList, 3) := by
   decide +kernel
 
 end SaphyrVerif.Props.C17
